@@ -194,4 +194,6 @@ def run(ck):
     fdict_sites(ck, P)
     deflate_set_dictionary(ck, P)
     inflate_dict(ck, P)
+    from . import c06
+    c06.get_dictionary_guard(ck, P, "GUARD/get-dictionary")
     ck.assumptions += ["rustc MIR", "host target; K1"]
